@@ -208,7 +208,12 @@ pub fn gen_case(rng: &mut Prng, op: &str) -> OpCase {
             }
             "mod_exp" => {
                 p.push(*rng.pick(&[0u64, 1, 2, 3, 5, 17, 65537]));
-                let m = big_class(rng, nb).max(BigUint::one());
+                // modulus 0 (inadmissible) and 1 are boundary classes
+                let m = match rng.below(8) {
+                    0 => BigUint::zero(),
+                    1 => BigUint::one(),
+                    _ => big_class(rng, nb).max(BigUint::one()),
+                };
                 bins = vec![big_class(rng, nb), m];
             }
             "select" => {
@@ -217,12 +222,12 @@ pub fn gen_case(rng: &mut Prng, op: &str) -> OpCase {
             }
             "to_le_bits" | "to_le_bytes" | "is_zero" => bins = vec![big_class(rng, nb)],
             "from_le_bits" => {
-                let n = nb.min(300);
+                let n = if rng.chance(1, 10) { 0 } else { nb.min(300) };
                 p[0] = n as u64;
                 ins = (0..n).map(|_| Fq::from(rng.below(2))).collect();
             }
             "from_le_bytes" => {
-                let n = (nb / 8).clamp(1, 64);
+                let n = if rng.chance(1, 10) { 0 } else { (nb / 8).clamp(1, 64) };
                 p[0] = n as u64;
                 ins = (0..n).map(|_| Fq::from(rng.below(256))).collect();
             }
@@ -683,8 +688,6 @@ pub fn check(c: &OpCase, publics: &[Fq]) -> Result<bool, String> {
             if x[1].is_zero() { return Ok(false); }
             expect_groups(1)?;
             let e = c.p[1];
-            // n = 0 returns the constant 1 (even for modulus 1, as the gadget documents no reduction there)
-            if e == 0 { return eqg(0, BigUint::one()); }
             eqg(0, x[0].modpow(&BigUint::from(e), &x[1]))
         }
         "lower_than" => { expect_groups(1)?; eqb(0, x[0] < x[1]) }
